@@ -50,6 +50,8 @@ def optSid (j : Json) : R (Option Sid) := optNat j
 def parseEv (j : Json) : R Ev := do
   match ← arr j with
   | [.str "post", r] => return .post (← parseReq r)
+  | [.str "reqstart"] => return .reqStart
+  | [.str "take"] => return .take
   | [.str "cb"] => return .cycleBegin
   | [.str "ce", a, p] => return .cycleEnd (← a.getBool?) (← p.getBool?)
   | [.str "call", s, i] => return .call (← s.getNat?) (← i.getBool?)
@@ -79,6 +81,8 @@ def jkind : IKind → Json
   | .restart => Json.str "restart"
 def jev : Ev → Json
   | .post r => jarr [Json.str "post", jreq r]
+  | .reqStart => jarr [Json.str "reqstart"]
+  | .take => jarr [Json.str "take"]
   | .cycleBegin => jarr [Json.str "cb"]
   | .cycleEnd a p => jarr [Json.str "ce", Json.bool a, Json.bool p]
   | .call s i => jarr [Json.str "call", jnat s, Json.bool i]
